@@ -641,7 +641,8 @@ SPECS["C17"] = {
 def plan_c16(tier, seed):
     k = 1 if tier == "quick" else 25
     return (checks("main", 4, 3000 * k) + checks("value_history", 2, 1500 * k) + checks("harray_history", 2, 2500 * k)
-            + checks("sequence_history", 2, 4000 * k) + checks("json_inputs", 2, 6000 * k) + checks("template_inputs", 2, 3000 * k))
+            + checks("sequence_history", 2, 4000 * k) + checks("json_inputs", 2, 6000 * k) + checks("template_inputs", 2, 3000 * k)
+            + checks("groupby_history", 1, 2500 * k))
 
 
 SPECS["C16"] = {
@@ -652,6 +653,8 @@ SPECS["C16"] = {
         "sequence_history": Build("sequence_history", "harness/c14_sequences.cpp"),
         "json_inputs": Build("json_inputs", "harness/c05_jsonsafe.cpp"),
         "template_inputs": Build("template_inputs", "harness/c01_template.cpp"),
+        # a grouping is a value of its own: it is read again after its source has been released
+        "groupby_history": Build("groupby_history", "harness/c18_groupby.cpp"),
     },
     "default_build": "main",
     "plan": plan_c16,
